@@ -634,6 +634,24 @@ func (r *Runner) oracleC03(s *Session, k int, op OpSpec) {
 		} else if h := bc.GetHeaderByNumber(n); h != nil {
 			got = h.Hash()
 		}
+		if got != want && len(s.Rewound) > 0 {
+			// known mechanism: SetHead removed headers on the then-current chain but kept the side
+			// headers (and TDs) that hang off them; a later header import on such an orphaned side
+			// header is accepted - WriteHeader only checks the parent's TD, and its number-rewrite
+			// loop stops at a stale entry left by an earlier shorter-heavier reorg instead of running
+			// into the missing ancestor - so the header head's chain has ancestors that are gone
+			orphaned := false
+			for a := head; a != 0; a = t.Spec[a].Parent {
+				if s.Rewound[a] && bc.GetHeader(t.Blocks[a].Hash(), t.Num[a]) == nil {
+					orphaned = true
+				}
+			}
+			if orphaned && op.Kind != "sethead" {
+				r.C.Violate("headers-accepted-on-orphaned-side-header-after-sethead", "a header was accepted on top of a side header whose ancestors SetHead removed (no panic this time: the number-rewrite loop of WriteHeader stopped at a stale entry): the header head's chain has missing ancestors and heights without a number entry",
+					r.replay(k, map[string]interface{}{"height": n, "want_node": anc, "got": t.Ids.B(got)}))
+				return
+			}
+		}
 		if got != want {
 			r.C.Violate("canon-below-head/"+tag, "a height at or below the head does not map to the head's ancestor", r.replay(k, map[string]interface{}{"height": n, "want_node": anc, "got": t.Ids.B(got)}))
 			continue
